@@ -66,6 +66,14 @@ def run(ctx):
     asts = [("ser%d" % i, corpus.ser_package("c13_%d_%d" % (common.seed(), i), depth=3)) for i in range(8 if quick else 80)] + \
            [("evo%d" % i, evo.evo_base("c13e_%d_%d" % (common.seed(), i))) for i in range(4 if quick else 40)]
 
+    # a local type used only as a type argument of an imported generic, defined after its user
+    lib = Pkg("Lib", [Rec("Box", [("content", TP("T")), ("count", P("int32"))], ("T",)), Al("Many", V(TP("T")), ("T",))])
+    for i, order in enumerate([("User", "Local", "P"), ("P", "User", "Local"), ("Local", "User", "P")]):
+        ds = {"User": Rec("User", [("f", N("Box", (N("Local"),), "Lib")), ("g", N("Many", (N("Local"),), "Lib"))]),
+              "Local": Rec("Local", [("x", P("int32")), ("y", Opt(P("string")))]),
+              "P": Proto("Order", [("u", N("User")), ("s", S(N("Box", (N("Local"),), "Lib")))])}
+        asts.append(("importedgeneric%d" % i, Pkg("Demo", [ds[n] for n in order], [lib])))
+
     def one(item):
         key, pkg = item
         r = rng("C13", key)
